@@ -272,4 +272,79 @@ def r50r(F):
     return r
 
 
-RULES = [r49, r49t, r50, r50r, r51, r52, r87b]
+def r51s(F):
+    r = RuleResult("R51s", "the artifact is named after the path the user gave",
+                   "the path build_file hands to FileBuilder::build (from which the out hook derives the artifact's name) is the "
+                   "command-line argument joined onto the current directory, not a canonicalised path: canonicalize / read_link resolve "
+                   "symbolic links, and the artifact of `prod.ucg -> ../shared/base.ucg` would appear as shared/base.json", floor=1)
+    cands = [n for n in F.fns if n in ("ucg::build_file",)]
+    need(cands, "ucg::build_file not found")
+    fn = F.fn(cands[0])
+    o = Origins(fn)
+    builds = [(b, t) for b, t in fn.calls() if callee(t).endswith("FileBuilder::build")]
+    need(builds, "build_file does not call FileBuilder::build")
+    for b, t in builds:
+        cs = calls_in(o.at(t["args"][1], b))
+        resolving = sorted(c for c in cs if c.split("::")[-1] in ("canonicalize", "read_link", "realpath"))
+        r.inst("build_file:path", fn.where(b), not resolving,
+               "cwd.join(argument)" if not resolving else
+               "the path of the file to build passes through %s: the artifact is named after the link target, not after the file the "
+               "user named" % ", ".join(x.split("::")[-1] for x in resolving))
+    return r
+
+
+def r49w(F):
+    r = RuleResult("R49w", "a successful out statement writes the artifact",
+                   "in Builtins::out every path from the successful conversion to Ok writes the converted bytes to the created file; a "
+                   "path that skips the write (an `is it current already` shortcut) is accepted only behind an equality test between the "
+                   "new contents and the whole old file (fs::read / read_to_end / read_to_string) -- comparing only the first "
+                   "contents.len() bytes treats an old artifact that merely starts with the new output as current", floor=1)
+    fn = F.fn(OUT)
+    conv = [b for b, t in fn.calls() if callee(t) == DYN_CONVERT]
+    need(conv, "no Converter::convert call in Builtins::out")
+    sites = _creation_sites(F, fn)
+    create = sorted({b for b, hf, hb in sites})
+    writes = {b for b, t in fn.calls() if callee(t).split("::")[-1] in ("write_all", "write", "write_fmt") and "io::Write" in callee(t) or callee(t) == "std::fs::write"}
+    need(create and writes, "Builtins::out: creation / write of the artifact not found")
+    oks = [b for b, j, pl, rv, m in fn.assigns() if pl["l"] == 0 and not pl["p"] and rv["k"] == "agg" and rv.get("variant") == "Ok"]
+    # the file branch: Ok blocks reachable from a creation
+    file_oks = [ob for ob in oks if any(cfg.reaches(fn, cb, ob) for cb in create)]
+    need(file_oks, "Builtins::out: no Ok return behind the creation of the artifact")
+    # can Ok be reached from the conversion's success without a write, on a path that does not go to stdout?
+    t0 = fn.term(conv[0])
+    succ = None
+    for sb, st in util.enum_switches(fn, t0["dest"]["l"]):
+        succ = cfg.switch_edge(st, variant="Ok")
+    need(succ is not None, "Builtins::out: result of the conversion is not matched")
+    skipping = [ob for ob in oks if ob in cfg.reachable(fn, succ, removed=writes)]
+    if not skipping:
+        r.inst("out:writes", fn.where(create[0]), True, "every path that reaches the file branch creates and writes the artifact")
+        return r
+    # a skip exists: it must be guarded by a whole-file comparison, in the hook or in a helper it calls
+    fns = [fn] + [F.fn(callee(t)) for b, t in fn.calls() if callee(t).startswith("ucglib::build::opcode::runtime::") and callee(t) in F.fns and callee(t) != fn.name]
+    whole = False
+    for f2 in fns:
+        names = {callee(t2).split("::")[-1] for b2, t2 in f2.calls()}
+        if "read_exact" in names or "take" in names:
+            continue          # reads a fixed number of bytes: a prefix comparison
+        o2 = Origins(f2)
+        for b, t in f2.calls():
+            if callee(t).split("::")[-1] in ("eq", "ne"):
+                labs = set()
+                for a in t["args"]:
+                    labs |= o2.at(a, b)
+                if any(c.split("::")[-1] in ("read", "read_to_end", "read_to_string") for c in calls_in(labs)):
+                    whole = True
+    r.inst("out:writes", fn.where(skipping[0]), whole,
+           "the write is skipped only when the whole old file equals the new contents" if whole else
+           "Builtins::out can return Ok without writing the artifact and the shortcut is not a comparison with the whole old file: an "
+           "old artifact that merely starts with the new (shorter) output is kept as it is")
+    return r
+
+
+def _r48k(F):
+    from .c16 import r48k
+    return r48k(F)
+
+
+RULES = [r49, r49t, r49w, r50, r50r, _r48k, r51, r51s, r52, r87b]
